@@ -617,8 +617,5 @@ UNITS += _carried("C04")
 # and with `key+` the list member of a Union is tried first whatever kind of value arrives
 from contracts.check_type import check_type_unit as _c04_check_type_unit  # noqa: E402
 UNITS.append(_c04_check_type_unit("C04"))
-try:  # (contracts.c02 imports this module on its way: when it is the one being loaded its unit is not defined yet, and C04's list is not needed in that process)
-    from contracts.c02 import ss_post as _ss_post, ss_raises as _ss_raises, ss_setup as _ss_setup  # noqa: E402
-    UNITS.append(Unit("C04", "jsonargparse._typehints:sort_subtypes_for_union", _ss_setup, _ss_post, _ss_raises, max_paths=20000, trusted=["sorted(key=) is stable", "get_typehint_origin classifies list / dict hints"]))
-except ImportError:
-    pass
+from contracts.sort_unit import sort_subtypes_unit as _sort_subtypes_unit  # noqa: E402
+UNITS.append(_sort_subtypes_unit("C04"))
